@@ -282,24 +282,24 @@ func (s *PrefixFS) Lstat(name string) (fs.FileInfo, error) {
 func (s *PrefixFS) Symlink(oldname, newname string) error {
 	// links may be relative paths
 
-	var (
-		err     error
-		oldPath string
-	)
-	if isAbs(oldname) {
-		// absolute path symlink
-		oldPath, err = s.prefixPath(oldname)
-	} else {
-		// relative path symlink
-		_, err = s.prefixPath(filepath.Join(filepath.Dir(newname), oldname))
-		oldPath = oldname
-	}
-
+	newPath, err := s.prefixPath(newname)
 	if err != nil {
 		return &os.LinkError{Op: "symlink", Old: oldname, New: newname, Err: err}
 	}
 
-	newPath, err := s.prefixPath(newname)
+	var oldPath string
+	if isAbs(oldname) {
+		// absolute path symlink
+		oldPath, err = s.prefixPath(oldname)
+	} else {
+		// relative path symlink: it is resolved starting at the directory of the prefixed link,
+		// so that is where we check that it does not climb out of the prefix.
+		if _, inside := relInside(s.prefix, filepath.Join(filepath.Dir(newPath), oldname)); !inside {
+			err = syscall.EPERM
+		}
+		oldPath = oldname
+	}
+
 	if err != nil {
 		return &os.LinkError{Op: "symlink", Old: oldname, New: newname, Err: err}
 	}
